@@ -399,8 +399,9 @@ fn main() {
         }
         if r.chance(1, 5) {
             // ---- genuine f64 weights, compared bit-for-bit with the SpecFloat instance of the generic model;
-            // the checker uses exact arithmetic on the values.  VnBest runs in a child process: with
-            // fractional weights its loop may oscillate for ever (known finding, docs/C14.md).
+            // the checker uses exact arithmetic on the values.  VnBest runs in a child process that can be
+            // killed: before fix 98041ea its loop could oscillate for ever on fractional weights, and no
+            // termination proof exists for floats -- a hang is a rejection, and must not cost a core.
             let (wfam, wf) = gen_f64_weights(&mut r, big);
             let n = wf.len();
             let plen = if r.chance(1, 14) { if r.chance(1, 2) { n + 1 } else { n.saturating_sub(1) } } else { n };
@@ -456,22 +457,15 @@ fn main() {
                 cnt,
                 coq_nlist(after.iter().map(|x| *x as u128)),
             );
-            // known finding, decided from the input alone: VnBest on f64 weights that are not all integers
-            let kf = if alg == 0 && wf.iter().any(|x| x.fract() != 0.0) && wf.iter().all(|x| *x >= 0.0) && plen == n {
-                ",\"kf\":\"vnbest-f64-oscillation\""
-            } else {
-                ""
-            };
             let wtxt: Vec<String> = wf.iter().map(|x| format!("{:?}", x)).collect();
             let btxt: Vec<String> = bits.iter().map(|x| x.to_string()).collect();
             let json = format!(
-                "{{\"algorithm\":\"{}\",\"weight_type\":\"f64\",\"pool_threads\":1,\"weights_f64\":[{}],\"weights_bits\":[{}],\"partition\":{},\"impl\":{}{}}}",
+                "{{\"algorithm\":\"{}\",\"weight_type\":\"f64\",\"pool_threads\":1,\"weights_f64\":[{}],\"weights_bits\":[{}],\"partition\":{},\"impl\":{}}}",
                 if alg == 0 { "VnBest" } else { "VnFirst" },
                 wtxt.join(","),
                 btxt.join(","),
                 json_usizes(&p0),
-                impl_json,
-                kf
+                impl_json
             );
             let key = format!("f64|{}|{:?}|{:?}", alg, bits, p0);
             let nontrivial = plen == n && n >= 3 && p0.iter().any(|x| *x != 0) && wf.iter().any(|x| *x != 0.0);
